@@ -82,7 +82,7 @@ theorem perm_definitions_accepted_memo (s : SchemaD) (fx : Fixes) (hfx : HeadVar
   exact fun r hr => (perm_definitions_all26 s fx hfx h hnd hd.names hk hv hpa hw r hr).mp (hacc r hr)
 
 /-- **the VERDICT of the chain /repo runs does not depend on the order of the definitions** (hypotheses on the document:
-    those of the headline theorems only) -/
+    those of the headline theorems only) [About the CONJUNCTION OF THE 26 ALONE RUNS (`SilentM`); the same for the chain itself, `SkipNode` handling included: `Props/C06_chain.lean: chainM_six_transformations`, through `chainM_silent_iff_alone`.] -/
 theorem perm_definitions_verdict_invariance_memo (s : SchemaD) (fx : Fixes) (hfx : HeadVars fx) (hs : SchemaOutputs s)
     {d d' : Doc} (h : d.defs.Perm d'.defs) (hd : DocOkM s d) :
     (∀ r ∈ Rule.all, SilentM s fx r d) ↔ (∀ r ∈ Rule.all, SilentM s fx r d') :=
@@ -92,7 +92,7 @@ theorem perm_definitions_verdict_invariance_memo (s : SchemaD) (fx : Fixes) (hfx
 /-- **verdict unchanged under the six transformations of the statement, for the chain /repo runs** (one theorem, the four
     verdict-level statements side by side): reordering definitions, reordering selections and arguments + injective
     renaming of fragments (no empty name produced), renaming of aliases injective on response keys, injective renaming
-    of variables. `Accepts s fx d` = every one of the 26 rule visitors is silent, the overlap rule being the memoised one. -/
+    of variables. `Accepts s fx d` = every one of the 26 rule visitors is silent, the overlap rule being the memoised one. [About the CONJUNCTION OF THE 26 ALONE RUNS (`SilentM`); the same for the chain itself, `SkipNode` handling included: `Props/C06_chain.lean: chainM_six_transformations`, through `chainM_silent_iff_alone`.] -/
 theorem six_transformations_verdict_memo (s : SchemaD) (fx : Fixes) (hfx : HeadVars fx) (hs : SchemaOutputs s) (d : Doc)
     (hd : DocOkM s d) :
     let Accepts := fun d => ∀ r ∈ Rule.all, SilentM s fx r d
